@@ -168,3 +168,13 @@ def lemma(name, params, **kw):
     l = Lemma(name, params, **kw)
     LEMMAS[name] = l
     return l
+
+
+def shared_list(name, elem):
+    """A list object that is genuinely shared between objects (heap-allocated,
+    aliasable): Ref[list:<name>] with one field `items: Seq[elem]`."""
+    return model('list:' + name, fields={'items': 'Seq[%s]' % elem}, external=True)
+
+
+def shared_dict(name, k, v):
+    return model('dict:' + name, fields={'items': 'Map[%s,%s]' % (k, v)}, external=True)
